@@ -32,7 +32,8 @@ META = {
     "rule": "runs: (filter, n, m, p in 1..6, dtype, affine|non-linear family member, SPD P/Q/R = U diag(lambda) U^T with "
             "scale 1e-3..1e3 and condition 1..1e6, non-diagonal unless drawn diagonal, k from {None, 0, 1, 2, 0.5, 10, 100, "
             "1e3, 3-n, -n+0.5, -n+0.01, ...}, Q/R given per call | at construction | both, t None|tensor, clock reset) x "
-            "T consecutive calls with fresh u, y (and sometimes Q, R) per call; PF: recorded draws (N = 1..400) and "
+            "T consecutive calls with fresh u, y (and sometimes Q, R) per call, user-supplied symmetric msqrt on a quarter of the "
+            "affine UKF runs, one non-linear UKF run per k value; PF: recorded draws (N = 1..250) and "
             "statistical runs N = 1e3..1e6; a case (one call) is non-trivial when the innovation and the gain are non-zero "
             "and distinct by (filter, dims, dtype, kind, k, step index bucket, magnitude buckets)",
     "trusted": ["torch.linalg.pinv / cholesky, torch.autograd.functional.jacobian, MultivariateNormal.sample/log_prob, "
@@ -43,8 +44,8 @@ META = {
                     "invertibility theorems)", "k > -n", "pinv S = S^-1 for invertible S; msqrt M (msqrt M)^T = M",
                     "the system's f, g are differentiable and NLS.A / NLS.C return their Jacobians at the prior mean"],
     "partial": ["PF Monte-Carlo convergence rate: no theorem (probabilistic limit); decided statistically by the pf-stat "
-                "stream (6.5-sigma band, N = 1e3..1e6). The deterministic skeleton (weights, resampling intervals, "
-                "moments, PSD) is proved.",
+                "stream (6.5-sigma band, N = 1e3..1e6, verdict only when the effective sample size N/E[w~^2] >= 200). The "
+                "deterministic skeleton (weights, resampling intervals and their Lebesgue measure, moments, PSD) is proved.",
                 "floating-point rounding is not modelled: equality with the Kalman posterior is a theorem over the reals "
                 "plus measured agreement within a conditioning-aware tolerance"],
 }
@@ -282,7 +283,12 @@ def run_one(ctx: Ctx, c, lines, metas, verbose=False):
             lines.append(ukf_line(c, d, kval, t_eff, st["u"], yl, Ql, Rl, xl, Pl))
         else:
             lines.append(f"c13.ekf {n} {m} {p} " + uf.step_tokens(d["prm"], t_eff, st["u"], yl, Ql, Rl, xl, Pl))
-        metas.append({"case": stepcase, "x": x2.detach().clone(), "P": P2.detach().clone(), "tolx": tolx, "tolP": tolP})
+        # a prior / predicted covariance that is singular at rounding level: the exact model may find no Cholesky
+        # factor where the float code (or a user-supplied symmetric root) still returns one — not a verdict
+        soft_pd = is_ukf and ((j > 0 and in_lam <= 4 * n * prev_tolP) or uinfo is None
+                              or uinfo["lamPm"] <= CTOL * eps * uinfo["dPm"])
+        metas.append({"case": stepcase, "x": x2.detach().clone(), "P": P2.detach().clone(), "tolx": tolx, "tolP": tolP,
+                      "soft_pd": soft_pd})
         if verbose:
             print(f"  call {j}: implementation x={x2.tolist()}\n           reference      x={uf.mp_to_list(ref['x'])}")
         if j == 0:
@@ -312,6 +318,9 @@ def compare_runs(ctx: Ctx, lines, metas, verbose=False, reps=None):
         if st != "ok":
             if toks.startswith("contract") or toks.startswith("arity") or toks.startswith("bad") or toks.startswith("unknown"):
                 raise common.InfraError(f"driver: {rep} for {case}")
+            if toks.startswith("not-pd") and me.get("soft_pd"):
+                ctx.count("run.model-not-pd.rounding-singular-prior")
+                continue
             ctx.disagree("run", case, f"model fails ({toks}) but the implementation returned a value")
             continue
         vals = [common.from_wire(t) for t in toks]
